@@ -456,7 +456,9 @@ def helix_obj(*args, **kwargs) -> HelixObject:
 
     dist = (position - pivot).to_2D()
     dr = dist.rho
-    if not np.isclose(dist.phi % (2 * np.pi), phi0):
+    # dr is negative when the position lies opposite to the phi0 direction (angles compared
+    # modulo 2 pi, so phi0 next to the 0 / 2 pi wrap is handled)
+    if np.cos(dist.phi - phi0) < 0:
         dr *= -1
 
     dz = position.z - pivot.z
@@ -938,7 +940,7 @@ def _fix_dr_sign(dr: FloatLike, phi0: FloatLike, dist_phi: FloatLike) -> FloatLi
     Returns:
         float: The corrected radial distance.
     """
-    if not np.isclose(dist_phi % (2 * np.pi), phi0):
+    if np.cos(dist_phi - phi0) < 0:
         return -dr
     return dr
 
